@@ -23,8 +23,7 @@ EXPLANATION = (
 REQ_LOCK = "HTTPChannel.requests_lock"
 
 
-def rule_r1(ctx):
-    rid = "C11.R1"
+def rule_r1(ctx, rid="C11.R1"):
     ctx.r.rule(rid, "the worker's close decision, closing of queued requests and the queue reset are in one requests_lock region")
     p = ctx.p
     lk = get_locks(p)
